@@ -4,5 +4,5 @@ P=$1; PATCH=$2
 if [ -n "$(git -C /repo status --porcelain)" ]; then echo "refusing: /repo has uncommitted changes"; exit 4; fi
 cd /repo && git apply "$PATCH" || { echo "PATCH DOES NOT APPLY"; exit 3; }
 git diff --stat | tail -1
-cd /verif && ./bin/govc check -prop $P -no-evidence 2>&1 | grep -E "^FAILED|^govc:|KNOWN|^VIOLATION" | cut -c1-260
+cd /verif && ./bin/govc check -prop $P -no-evidence 2>&1 | grep -E "^FAILED|^govc:|KNOWN|^VIOLATION" | cut -c1-260 | tail -6
 cd /repo && git checkout -- . && git status --short | head -3
